@@ -91,6 +91,18 @@ ALTER_PROGRAMS = [
     "def g(n):\n    for i in range(n):\n        k = 10 ** 6\n        print(i + k)\n",
     "def h():\n    return ['a-long-literal-number-one', 'a-long-literal-number-one', 'a-long-literal-number-one', 'a-long-literal-number-one', 'a-long-literal-number-one']\n",
     "import os\nimport os\nimport os.path\nprint(os.path.sep)\n",
+    # the other rules that edit the text directly (found when the C20 baseline was audited rule by rule)
+    "def helper_one(v):\n    w = v + 1\n    return w * 2\n\n\ndef helper_two(q):\n    z = q + 1\n    return z * 2\n\n\ndef f(x, y):\n    return helper_one(x) + helper_two(y)\n",
+    "def get(uri):\n    connection = sqlite3.connect(uri)\n    cursor = connection.cursor()\n    cursor.execute('SELECT 1')\n    rows = [r for r in cursor.fetchall()]\n    return rows\n",
+    "def f(x):\n    if x > 1:\n        print(1)\n        print(2)\n        print(3)\n        return 5\n    print(4)\n    return 7\n",
+    "def f(x, y):\n    if x > 1:\n        print('a', x + 1)\n        return x * 2 + y\n    else:\n        print('a', y + 1)\n        return y * 2 + x\n",
+    "class A:\n    def m(self, v):\n        return v + 1\n\n    @staticmethod\n    def s(v):\n        return v * 2\n\n\nprint(A().m(1), A.s(2))\n",
+    "def f(x):\n    y = x + 1\n    return y\n\n\ndef g(x):\n    if x:\n        return True\n    else:\n        return False\n",
+    "def f(x):\n    if x > 1:\n        print(1)\n        print(2)\n        print(3)\n        return 5\n    return 7\n",
+    "def f(x):\n    if x:\n        print(1)\n        print(9)\n    else:\n        print(2)\n        print(9)\n    return x\n",
+    "def f(x):\n    if False:\n        print(1)\n    else:\n        print(2)\n    if x:\n        pass\n    elif False:\n        print(3)\n    else:\n        print(4)\n",
+    "def f():\n    import os\n    return os.sep\n\n\nimport json\nimport sys\nprint(sys.argv)\n",
+    "def f(x):\n    if x > 3:\n        return True\n    return False\n",
 ]
 
 
@@ -147,7 +159,9 @@ def annotate_suite(ctx):
 
 
 DIRECT_RULES = ["fixes.fix_duplicate_imports", "fixes.sort_imports", "fixes.move_before_loop", "fixes.early_continue", "abstractions.overused_constant", "fixes.remove_unused_imports",
-                "fixes.move_imports_to_toplevel", "fixes.fix_import_spacing", "fixes.swap_if_else", "fixes.remove_redundant_else", "fixes.remove_dead_ifs", "fixes.align_variable_names_with_convention"]
+                "fixes.move_imports_to_toplevel", "fixes.fix_import_spacing", "fixes.swap_if_else", "fixes.remove_redundant_else", "fixes.remove_dead_ifs", "fixes.align_variable_names_with_convention",
+                "fixes.remove_duplicate_functions", "fixes.missing_context_manager", "abstractions.simplify_if_control_flow", "object_oriented.move_staticmethod_static_scope",
+                "object_oriented.remove_unused_self_cls", "fixes.simplify_assign_immediate_return", "fixes.fix_if_return", "fixes.breakout_common_code_in_ifs"]
 
 
 def direct_suite(ctx):
@@ -169,17 +183,19 @@ def direct_suite(ctx):
                 except SyntaxError:
                     continue
                 for rule_name in DIRECT_RULES:
-                    rule = oracles.resolve_rule(rule_name)
                     s.cases += 1
-                    st, out = oracles._guarded(lambda: rule(src), 30)
-                    if st != "ok" or out == src:
+                    st, out = oracles.task_format((src, {}, "rule:" + rule_name))  # passes preserve / root_is_static where the rule requires them
+                    if st != "ok":
+                        s.count(rule_name + ":" + st)
+                        continue
+                    if out == src:
                         continue
                     s.nt([rule_name, src])
                     s.count(rule_name)
                     if new[i] not in out.split("\n"):
                         s.disagreements.append({"rule": rule_name, "src": src, "line": new[i], "line_no": i, "out": out,
                                                 "what": f"{rule_name}: the line {new[i].strip()!r} carries an ignore comment but does not occur verbatim in the rule's output"})
-    s.note = ("6 programs on which the direct-editing rules fire x every line annotated x 5 accepted spellings of the ignore comment x 12 rules applied in isolation: "
+    s.note = ("17 programs on which the direct-editing rules fire x every line annotated x 5 accepted spellings of the ignore comment x 20 rules applied in isolation: "
               "the annotated line occurs verbatim in the rule's output; histogram = how often each rule changed the text")
     return s
 
